@@ -70,6 +70,31 @@ pub fn directed() -> Vec<(String, String)> {
         add("directed", format!("onbekend_{}", "é".repeat(off)));
         add("directed", format!("lengte(1, \"{t}\")"));
     }
+    // every text literal body of up to three characters over quotes, backslashes, escape letters, characters of two, three
+    // and four bytes, a brace and a line feed (closed, and - where the body ends in an odd number of backslashes or holds
+    // a bare quote - unclosed or followed by leftovers); and the same bodies as comments
+    let alpha = ['a', '"', '\\', 'n', 't', 'é', '€', '😀', ' ', '{', '\n'];
+    let mut bodies: Vec<String> = vec![String::new()];
+    let mut last: Vec<String> = vec![String::new()];
+    for _ in 0..3 {
+        let mut next = Vec::new();
+        for b in &last {
+            for c in alpha {
+                let mut t = b.clone();
+                t.push(c);
+                next.push(t);
+            }
+        }
+        bodies.extend(next.iter().cloned());
+        last = next;
+    }
+    for b in &bodies {
+        add("string-bodies", format!("\"{b}\""));
+        if b.chars().count() <= 2 {
+            add("string-bodies", format!("lengte(\"{b}\") // {b}\n1"));
+            add("string-bodies", format!("// {b}"));
+        }
+    }
     // deep nesting, long programs, huge literals
     for d in [50usize, 500, 3000, 20000] {
         add("deep-parens", format!("{}1{}", "(".repeat(d), ")".repeat(d)));
